@@ -150,3 +150,42 @@ Proof.
   destruct H as (dtw & -> & Hl & Hcells). exists dtw. split; [reflexivity|]. split; [exact Hl|].
   intros i j Hi Hj. rewrite Hcells by assumption. apply wps_code_matrix_cells; assumption.
 Qed.
+
+(* THE C KERNEL AS WRITTEN: dtw_warping_paths_ndim regenerated WHOLE from dd_dtw.c (Gen_cwpsk.v, tools/cfun.py: the
+   four row regions, their cell loops, the skip/fill loops, the running slot indices).  Run without a bound
+   (max_dist = 0 -> infinity, no value requested, squared representation kept) on two series of d-dimensional points
+   and ANY buffer of (l1+1) * width cells, with the DTWWps members being the regenerated dtw_wps_parts expressions:
+   the kernel returns -1 (no value requested), every subscript in range, and slot s of row i of the buffer IS cell
+   (i, s + shift(i-1)) of the specification matrix -- every slot whose column exists, the border column in the rows
+   where the kernels keep it.  This is the hypothesis C05_c_traceback_cost_for_dtw makes about the array. *)
+From DV Require Import Engines CDistSpec CWpsFinal.
+From DVGen Require Import Gen_cwps Gen_cwpsk.
+
+Theorem C04_c_wps_kernel_as_written :
+  forall (window p m mld : Z) (psi : (nat * nat) * (nat * nat)), (0 <= window)%Z ->
+  let usq := c_to_u (cs_of window p m mld psi SqEuclid) in
+  forall (s1 s2 : list point) (d : nat),
+  (forall q, In q s1 -> List.length q = d) -> (forall q, In q s2 -> List.length q = d) ->
+  (1 <= List.length s1)%nat -> (1 <= List.length s2)%nat ->
+  (psi_1b usq <= List.length s1)%nat -> (psi_2b usq <= List.length s2)%nat ->
+  forall ce shiftf ced1 ced2 (wps0 : list cost) psi_neg idist zp1e zp2e,
+  let l1 := Z.of_nat (List.length s1) in let l2 := Z.of_nat (List.length s2) in
+  let W := cw_width l1 l2 window in
+  Z.of_nat (List.length wps0) = ((l1 + 1) * W)%Z -> (idist =? 1)%Z = false ->
+  exists wps',
+    c_dtw_warping_paths_ndim ce shiftf ced1 ced2 wps0 (List.concat s1) l1 (List.concat s2) l2 false true psi_neg (Z.of_nat d)
+      ((l1 + 1) * W)%Z (c_parts_ldiff l1 l2) (c_parts_ldiffr l1 l2 (c_parts_ldiff l1 l2))
+      (c_parts_ldiffc l1 l2 (c_parts_ldiff l1 l2)) (c_parts_window l1 l2 window) W ((l1 + 1) * W)%Z
+      (c_parts_ri1 l1 (c_parts_overlap_left l1 (c_parts_ldiffr l1 l2 (c_parts_ldiff l1 l2)) (c_parts_window l1 l2 window))
+                      (c_parts_overlap_right l1 (c_parts_ldiffr l1 l2 (c_parts_ldiff l1 l2)) (c_parts_window l1 l2 window)))
+      (c_parts_ri2 l1 (c_parts_overlap_left l1 (c_parts_ldiffr l1 l2 (c_parts_ldiff l1 l2)) (c_parts_window l1 l2 window)))
+      (c_parts_ri3 l1 (c_parts_overlap_left l1 (c_parts_ldiffr l1 l2 (c_parts_ldiff l1 l2)) (c_parts_window l1 l2 window))
+                      (c_parts_overlap_right l1 (c_parts_ldiffr l1 l2 (c_parts_ldiff l1 l2)) (c_parts_window l1 l2 window)))
+      (adj_max_step usq) Inf (Fin (adj_penalty usq)) idist false (Z.of_nat (psi_1b usq)) zp1e (Z.of_nat (psi_2b usq)) zp2e false
+    = (CLang.RPlain (Fin (-1)), wps', true) /\
+    Z.of_nat (List.length wps') = ((l1 + 1) * W)%Z /\
+    forall (i : nat) (s : Z), (Z.of_nat i <= l1)%Z -> (0 <= s < W)%Z ->
+      (s + cw_shift l1 l2 window (Z.of_nat i - 1) <= l2)%Z ->
+      ((s + cw_shift l1 l2 window (Z.of_nat i - 1))%Z = 0%Z -> (Z.of_nat i <= cw_ri2 l1 l2 window)%Z) ->
+      aget wps' (Z.of_nat i * W + s) = mget (wps_matrix usq s1 s2) i (Z.to_nat (s + cw_shift l1 l2 window (Z.of_nat i - 1))).
+Proof. intros window p m mld psi Hw usq s1 s2 d Hd1 Hd2 H1 H2 Hp1 Hp2. exact (c_wps_kernel_stores_spec_matrix window p m mld psi Hw s1 s2 d Hd1 Hd2 H1 H2 Hp1 Hp2). Qed.
